@@ -603,8 +603,8 @@ Section Explain.
   Lemma Lx_subtable : forall s, sub_wf F s = true ->
     Lx (explain_subtable U F s) (sub_toks U F s) (sub_dl s) /\ rest_ok (explain_subtable U F s).
   Proof.
-    intros s W. destruct s as [c|cov delta|cov subst|cov repl|cov alts|cov repl|cov adj|cov adj];
-      [apply Lx_ctx; exact W|..];
+    intros s W. destruct s as [h|c|cov delta|cov subst|cov repl|cov alts|cov repl|cov adj|cov adj];
+      [discriminate W|apply Lx_ctx; exact W|..];
       cbn [sub_wf] in W; split_wf W; unfold explain_subtable, sub_toks; cbv beta iota zeta;
       try (assert (Ha : ascending cov) by (apply ascendingb_spec; assumption));
       try (assert (Hc : Forall (fun g => g < num_glyphs F) cov) by (apply gids_ok_forall; assumption)).
